@@ -577,3 +577,12 @@ def run(ctx):
     # "last step clipped to ts[-1]": a genuine remainder is a step of its own (exact-arithmetic model of the last steps)
     ctx.guard(ik.rule_last_steps, "R12.7", False)
     ctx.guard(r12_8)
+
+
+_run_before_clock = run
+
+
+def run(ctx):
+    _run_before_clock(ctx)
+    # termination also when the step size is below the resolution of the times (float32 ts far from the origin)
+    ctx.guard(ik.rule_clock_progress, "R12.9")
